@@ -277,6 +277,8 @@ PROGRAMS = {
     "P10": [("deferred", "A"), ("load", "D"), ("load", "D")],
     "P11": [("deferred", "A"), ("load", "B"), ("load", "D"), ("load", "B")],
     "P12": [("refresh", "A"), ("load", "D")],
+    # a refresh while the deferred load of the same resource is under way
+    "P13": [("deferred", "A"), ("refresh", "A"), ("load", "A")],
 }
 
 
@@ -495,7 +497,7 @@ def combos(tier):
             elif "C" in names and graph not in ("diamond", "twins"):
                 continue
             for target in ("terminology", "templates"):
-                if target == "templates" and pname in ("P6", "P7", "P8", "P12"):
+                if target == "templates" and pname in ("P6", "P7", "P8", "P12", "P13"):
                     continue
                 for cache in ("empty", "warm", "stale", "stale_gone", "warm_gone"):
                     if cache != "empty" and pname not in ("P1", "P2", "P4", "P5", "P6", "P12"):
